@@ -10,6 +10,8 @@ CONSTANTS
  DevNoExpiry = FALSE
  DevLogoutKeeps = FALSE
  DevLimiterPerWindowStart = FALSE
+ PollOnlyStale = FALSE
+ DevSessionPollRevives = FALSE
  DevAnyCookieValid = FALSE
  PairJars = TRUE
 INIT Init
